@@ -1291,7 +1291,7 @@ static void check_rel(const Poly& p, int mode, const std::string& label) {
   std::set<Var> qv; vars_of(p, qv);
   std::string smt;
   z3::check_result r = query(&neg, qv, e.pol.solver_timeout_ms, false, false, e.smt_dir.empty() ? nullptr : &smt);
-  if (!e.smt_dir.empty()) dump_query(label, smt);
+  if (!e.smt_dir.empty()) dump_query(label + "\n; z3: " + (r == z3::sat ? "sat" : r == z3::unsat ? "unsat" : "unknown"), smt);
   if (r == z3::sat) {
     // complete model over the whole path condition for the replay
     z3::check_result rf = query(&neg, qv, e.pol.solver_timeout_ms, true, true);
@@ -1447,7 +1447,11 @@ int run_main(int argc, char** argv, const char* harness_name, CaseGen gen) {
   }
   std::set<std::string> skip;
   for (int i = 1; i + 1 < argc; i++) if (std::string(argv[i]) == "--skip") { std::ifstream f(argv[i + 1]); std::string l; while (std::getline(f, l)) if (!l.empty()) skip.insert(l); }
-  std::vector<Case> cases; gen(opt, cases);
+  // thorough tier: the families are generated for three consecutive seeds (the seed-dependent members differ, fixed members repeat);
+  // cases of the later seeds carry the suffix #s<k>, so a replay file names its case uniquely
+  std::vector<Case> cases;
+  { int nseeds = (opt.tier == "thorough") ? 3 : 1;
+    for (int k = 0; k < nseeds; k++) { Options o2 = opt; o2.seed = opt.seed + k; std::vector<Case> t; gen(o2, t); for (auto& c : t) { if (k > 0) c.name += "#s" + std::to_string(k); cases.push_back(c); } } }
   if (list) { for (auto& c : cases) std::cout << c.name << "\n"; return 0; }
   std::ofstream fout; std::ostream* o = &std::cout;
   if (!out.empty()) { fout.open(out, std::ios::app); o = &fout; }
